@@ -12,8 +12,6 @@ loop filters, macro defaults, set/with) and the expected perturbed output.
 """
 from __future__ import annotations
 
-import itertools
-
 from vt.gen import c20_gen as G
 
 PID = "C20"
@@ -38,14 +36,14 @@ ASSUMPTIONS = [
     "programs whose plain-Python evaluation raises (ZeroDivisionError, TypeError) or exceeds 1e12 are discarded",
 ]
 NSHARDS = {"quick": 16, "thorough": 16}
-BUDGET_S = {"quick": 18, "thorough": 420}
+BUDGET_S = {"quick": 18, "thorough": 240}
 FLOORS = {
-    "quick": {"evaluations": 4000, "distinct": 3000,
-              "counters": {"hook_events": 10000, "subsets": 64, "events_compared": 10000,
-                           "unintercepted_applications": 5000, "async_renders": 100}},
-    "thorough": {"evaluations": 60000, "distinct": 50000,
-                 "counters": {"hook_events": 200000, "subsets": 512, "events_compared": 200000,
-                              "unintercepted_applications": 100000, "async_renders": 2000}},
+    "quick": {"evaluations": 6000, "distinct": 4000,
+              "counters": {"hook_events": 15000, "subsets": 64, "events_compared": 15000,
+                           "unintercepted_applications": 15000, "async_renders": 800}},
+    "thorough": {"evaluations": 150000, "distinct": 100000,
+                 "counters": {"hook_events": 400000, "subsets": 512, "events_compared": 400000,
+                              "unintercepted_applications": 400000, "async_renders": 20000}},
 }
 
 ALL_OPS = [("b", o) for o in G.BINOPS] + [("u", o) for o in G.UNOPS]
